@@ -127,6 +127,7 @@ pub struct SurfaceIntentions {
     presentation_start_overrides: ArenaAssoc<EntityId, SourceLine>,
     arm_prefix_breaks: ArenaAssoc<EntityId, BreakIntent>,
     existential_parameter_starts: ArenaAssoc<PatId, SourceLine>,
+    existential_parameter_ends: ArenaAssoc<PatId, SourceLine>,
     entity_sources: ArenaAssoc<EntityId, SourceLayoutId>,
     source_layouts: Vec<SourceLayout>,
 }
@@ -146,7 +147,7 @@ impl SurfaceIntentions {
         &mut self, source: &str, trivia_owned_ranges: &[Range<usize>],
         layouts: impl IntoIterator<Item = (EntityId, LineExtent, SourceLine)>,
         arm_layouts: impl IntoIterator<Item = (EntityId, SourceLine, SourceLine)>,
-        existential_layouts: impl IntoIterator<Item = (PatId, SourceLine)>,
+        existential_layouts: impl IntoIterator<Item = (PatId, SourceLine, SourceLine)>,
     ) {
         let source_id = SourceLayoutId(self.source_layouts.len());
         self.source_layouts.push(SourceLayout::new(source, trivia_owned_ranges));
@@ -163,8 +164,9 @@ impl SurfaceIntentions {
             let intent = BreakIntent::between(prefix, presentation_start, contains_blank_line);
             self.arm_prefix_breaks.insert_new(payload, intent);
         });
-        existential_layouts.into_iter().for_each(|(parameter, start)| {
+        existential_layouts.into_iter().for_each(|(parameter, start, end)| {
             self.existential_parameter_starts.insert_new(parameter, start);
+            self.existential_parameter_ends.insert_new(parameter, end);
         });
     }
 
@@ -194,7 +196,15 @@ impl SurfaceIntentions {
         match boundary {
             | LayoutBoundary::Between { before, after } => {
                 let before_extent = self.line_extent(before)?;
-                // An existential parameter starts at its own delimiter, not at its binder.
+                // An existential parameter starts and ends at its own delimiters, not at
+                // its binder.
+                let before_last = match before {
+                    | EntityId::Pat(parameter) => {
+                        self.existential_parameter_ends.get(&parameter).copied()
+                    }
+                    | _ => None,
+                }
+                .unwrap_or(before_extent.last);
                 let parameter_start = match after {
                     | EntityId::Pat(parameter) => {
                         self.existential_parameter_starts.get(&parameter).copied()
@@ -202,7 +212,7 @@ impl SurfaceIntentions {
                     | _ => None,
                 };
                 let after_start = parameter_start.or_else(|| self.presentation_start(after))?;
-                Some(self.break_intent(before, before_extent.last, after, after_start))
+                Some(self.break_intent(before, before_last, after, after_start))
             }
             | LayoutBoundary::AfterStart { enclosing, first } => {
                 let enclosing_extent = self.line_extent(enclosing)?;
